@@ -270,7 +270,8 @@ theorem ctl_eq {x x' : Proc} (h : Ctl x' = Ctl x) :
 theorem PInv.transfer {ρ : Nat → Nat → Nat} {ar : Nat → Nat} {s s' : Sys} {w : Wid} {p : Pid} {x x' : Proc}
     (h : PInv ρ ar s w p x) (hprog : s'.prog = s.prog) (hsid : ∀ q f, Sid s q f → Sid s' q f) (hc : Ctl x' = Ctl x)
     (hsp : p ∈ (s.wk w).spawning → p ∈ (s'.wk w).spawning)
-    (hn : ∀ q, Cmd.notifySpawn p q ∈ s'.cmdQ w → Cmd.notifySpawn p q ∈ s.cmdQ w)
+    (hn : ∀ q, Cmd.notifySpawn p q ∈ s'.cmdQ w → Cmd.notifySpawn p q ∈ s.cmdQ w ∨
+      ∃ f pass, (s.prog.getD x.fn [])[x.pc]? = some (.spawn f pass) ∧ Sid s' q f)
     (he : ∀ f regs coloc, Evt.spawn p f regs coloc ∈ s'.evtQ w → Evt.spawn p f regs coloc ∈ s.evtQ w) :
     PInv ρ ar s' w p x' := by
   obtain ⟨e1, e2, e3, e4, e5, e6, e7⟩ := ctl_eq hc
@@ -290,8 +291,10 @@ theorem PInv.transfer {ρ : Nat → Nat → Nat} {ar : Nat → Nat} {s s' : Sys}
   · rw [e5, e1, e2, hprog]; intro hi
     exact ⟨hsp (h.parked hi).1, (h.parked hi).2⟩
   · intro q hq
-    obtain ⟨f, pass, h1, h2⟩ := h.notif q (hn q hq)
-    exact ⟨f, pass, by rw [e1, e2, hprog]; exact h1, hsid _ _ h2⟩
+    rcases hn q hq with hq' | ⟨f, pass, h1, h2⟩
+    · obtain ⟨f, pass, h1, h2⟩ := h.notif q hq'
+      exact ⟨f, pass, by rw [e1, e2, hprog]; exact h1, hsid _ _ h2⟩
+    · exact ⟨f, pass, by rw [e1, e2, hprog]; exact h1, h2⟩
   · intro f regs coloc hq
     obtain ⟨pass, h1, h2⟩ := h.spev f regs coloc (he f regs coloc hq)
     exact ⟨pass, by rw [e1, e2, hprog]; exact h1, by rw [er]; exact h2⟩
@@ -347,7 +350,7 @@ theorem KInv.workerFrame {ρ : Nat → Nat → Nat} {ar : Nat → Nat} {s s' : S
     by_cases hw : w = i
     · subst hw; exact hpi p x hx
     · rw [hwk w hw] at hx
-      refine (h.procs w p x hx).transfer hprog hsid rfl ?_ (fun q hq => hcq w _ hq) (fun f regs coloc hq => hevo w hw _ hq)
+      refine (h.procs w p x hx).transfer hprog hsid rfl ?_ (fun q hq => Or.inl (hcq w _ hq)) (fun f regs coloc hq => hevo w hw _ hq)
       rw [hwk w hw]; exact id
   · intro w q f regs hm
     obtain ⟨h1, h2, h3⟩ := h.cmds w q f regs (hcq w _ hm)
@@ -361,14 +364,18 @@ def CmdSpec (s s' : Sys) (w0 : Wid) : Prop :=
   s'.prog = s.prog ∧ (∀ w c, c ∈ s.cmdQ w → c ∈ s'.cmdQ w) ∧
   (∀ w c, c ∈ s'.cmdQ w → c ∈ s.cmdQ w ∨ plainCmd c ∨
       ∃ c0 f regs coloc rest, s.evtQ w0 = .spawn c0 f regs coloc :: rest ∧
-        (c = .spawn s.env.nextPid f regs ∨ (c = .notifySpawn c0 s.env.nextPid ∧ w = w0)))
+        (c = .spawn s.env.nextPid f regs ∨ (c = .notifySpawn c0 s.env.nextPid ∧ w = w0))) ∧
+  (∀ c0 f regs coloc rest, s.evtQ w0 = .spawn c0 f regs coloc :: rest → ∃ w, Cmd.spawn s.env.nextPid f regs ∈ s'.cmdQ w)
 
-theorem cmdSpec_same {s s' : Sys} {w0 : Wid} (hp : s'.prog = s.prog) (hc : s'.cmdQ = s.cmdQ) : CmdSpec s s' w0 :=
-  ⟨hp, fun w c h => by rw [hc]; exact h, fun w c h => Or.inl (by rw [hc] at h; exact h)⟩
+theorem cmdSpec_same {s s' : Sys} {w0 : Wid} (hp : s'.prog = s.prog) (hc : s'.cmdQ = s.cmdQ)
+    (hns : ∀ c0 f regs coloc rest, s.evtQ w0 ≠ .spawn c0 f regs coloc :: rest) : CmdSpec s s' w0 :=
+  ⟨hp, fun w c h => by rw [hc]; exact h, fun w c h => Or.inl (by rw [hc] at h; exact h),
+   fun c0 f regs coloc rest h => absurd h (hns c0 f regs coloc rest)⟩
 
 theorem cmdSpec_push {s s1 : Sys} {w0 : Wid} (hp : s1.prog = s.prog) (hc : s1.cmdQ = s.cmdQ) (w : Wid) (c : Cmd)
-    (hpl : plainCmd c) : CmdSpec s (s1.pushCmd w c) w0 := by
-  refine ⟨hp, fun w' c' h => ?_, fun w' c' h => ?_⟩
+    (hpl : plainCmd c) (hns : ∀ c0 f regs coloc rest, s.evtQ w0 ≠ .spawn c0 f regs coloc :: rest) :
+    CmdSpec s (s1.pushCmd w c) w0 := by
+  refine ⟨hp, fun w' c' h => ?_, fun w' c' h => ?_, fun c0 f regs coloc rest h => absurd h (hns c0 f regs coloc rest)⟩
   · show c' ∈ upd s1.cmdQ w (s1.cmdQ w ++ [c]) w'
     rw [hc]; exact mem_upd_append_of_mem h
   · have h' : c' ∈ upd s1.cmdQ w (s1.cmdQ w ++ [c]) w' := h
@@ -380,7 +387,8 @@ theorem cmdSpec_push {s s1 : Sys} {w0 : Wid} (hp : s1.prog = s.prog) (hc : s1.cm
 theorem envStep1_cmdSpec (combine) {s : Sys} (h : RInv s) (w0 : Wid) : CmdSpec s (envStep1With combine s w0) w0 := by
   unfold envStep1With
   split
-  · exact cmdSpec_same rfl rfl
+  · rename_i hq0
+    exact cmdSpec_same rfl rfl (by intros; rw [hq0]; simp)
   · rename_i e rest hq
     obtain ⟨h1, he⟩ := h.popEvt hq
     cases e with
@@ -389,37 +397,48 @@ theorem envStep1_cmdSpec (combine) {s : Sys} (h : RInv s) (w0 : Wid) : CmdSpec s
       have hne : c ≠ ({ s with evtQ := upd s.evtQ w0 rest } : Sys).env.nextPid := Nat.ne_of_lt (h.below c w0 he.1)
       simp only [handleEventWith]
       rw [handleSpawn_eq hr hne]
-      refine ⟨rfl, fun w c' hc' => ?_, fun w c' hc' => ?_⟩
+      refine ⟨rfl, fun w c' hc' => ?_, fun w c' hc' => ?_, ?_⟩
       · exact mem_upd_append_of_mem (mem_upd_append_of_mem hc')
       · rcases mem_upd_append hc' with h2 | ⟨e1, e2⟩
         · rcases mem_upd_append h2 with h3 | ⟨_, e4⟩
           · exact Or.inl h3
           · exact Or.inr (Or.inr ⟨c, f, regs, coloc, rest, hq, Or.inl e4⟩)
         · exact Or.inr (Or.inr ⟨c, f, regs, coloc, rest, hq, Or.inr ⟨e2, e1⟩⟩)
+      · intro c0 f' regs' coloc' rest' hq'
+        rw [hq] at hq'
+        simp only [List.cons.injEq, Evt.spawn.injEq] at hq'
+        obtain ⟨⟨_, rfl, rfl, _⟩, _⟩ := hq'
+        refine ⟨placement { s with evtQ := upd s.evtQ w0 rest } coloc s.env.nextPid, ?_⟩
+        apply mem_upd_append_of_mem
+        simp [upd_apply]
     | deliver t m =>
+      have hns : ∀ c0 f regs coloc rest', s.evtQ w0 ≠ .spawn c0 f regs coloc :: rest' := by intros; rw [hq]; simp
       simp only [handleEventWith, handleDeliver]
       split
-      · exact cmdSpec_same rfl rfl
-      · refine cmdSpec_push ?_ ?_ _ _ ?_ <;> first | rfl | simp [plainCmd, cmdCreate]
+      · exact cmdSpec_same rfl rfl hns
+      · refine cmdSpec_push ?_ ?_ _ _ ?_ hns <;> first | rfl | simp [plainCmd, cmdCreate]
     | await a ts =>
+      have hns : ∀ c0 f regs coloc rest', s.evtQ w0 ≠ .spawn c0 f regs coloc :: rest' := by intros; rw [hq]; simp
       simp only [handleEventWith, handleAwait]
       split
-      · exact cmdSpec_same rfl rfl
+      · exact cmdSpec_same rfl rfl hns
       · have hf := foldPush_spec (fun w => Cmd.queryAwait a (ts.filter (fun t => s.env.router t = some w)))
           (targetWorkers s.env.router ts)
           { s with evtQ := upd s.evtQ w0 rest, env := { s.env with pending := upd s.env.pending a (some { expected := targetWorkers s.env.router ts, responses := [] }) } }
         obtain ⟨_, _, _, f4, f5, _, f7⟩ := hf
-        refine ⟨f4, f5, fun w c hc => ?_⟩
+        refine ⟨f4, f5, fun w c hc => ?_, fun c0 f regs coloc rest' h => absurd h (hns c0 f regs coloc rest')⟩
         rcases f7 w c hc with h2 | ⟨_, rfl⟩
         · exact Or.inl h2
         · exact Or.inr (Or.inl (by simp [plainCmd, cmdCreate]))
     | procResults a rs =>
+      have hns : ∀ c0 f regs coloc rest', s.evtQ w0 ≠ .spawn c0 f regs coloc :: rest' := by intros; rw [hq]; simp
       simp only [handleEventWith, handleProcResultsWith]
       repeat' split
       all_goals first
-        | exact cmdSpec_same rfl rfl
-        | (refine cmdSpec_push ?_ ?_ _ _ ?_ <;> first | rfl | simp [plainCmd, cmdCreate])
-    | resultResp req r => exact cmdSpec_same rfl rfl
+        | exact cmdSpec_same rfl rfl hns
+        | (refine cmdSpec_push ?_ ?_ _ _ ?_ hns <;> first | rfl | simp [plainCmd, cmdCreate])
+    | resultResp req r =>
+      exact cmdSpec_same rfl rfl (by intros; rw [hq]; simp)
 
 /-! ### worker operations that leave the control part alone -/
 
@@ -546,5 +565,682 @@ theorem handleCmd_evts_nospawn (R : Rules) (s : Sys) (i : Wid) (c : Cmd) :
     | (intro hmem; rcases mem_upd_append hmem with h1 | ⟨_, rfl⟩
        · exact Or.inl h1
        · exact Or.inr (by intros; simp))
+
+/-! ### spawn pairing, as used here -/
+
+theorem spair_evt_parked {s : Sys} (h : SPair s) {w : Wid} {c : Pid} {f : Nat} {regs : List Pid} {co : Option Pid}
+    (hm : Evt.spawn c f regs co ∈ s.evtQ w) : c ∈ (s.wk w).spawning := by
+  have := h w c
+  have hpos : 0 < (s.evtQ w).countP (isSpawnEvt c) := by
+    rw [List.countP_pos_iff]; exact ⟨_, hm, by simp [isSpawnEvt]⟩
+  by_cases hin : c ∈ (s.wk w).spawning
+  · exact hin
+  · simp only [hin, if_false] at this; omega
+
+theorem spair_head_notify {s : Sys} (h : SPair s) {w : Wid} {c q : Pid} {rest : List Cmd}
+    (hq : s.cmdQ w = .notifySpawn c q :: rest) :
+    (∀ q', Cmd.notifySpawn c q' ∉ rest) ∧ ∀ f regs co, Evt.spawn c f regs co ∉ s.evtQ w := by
+  have := h w c
+  rw [hq, List.countP_cons] at this
+  simp only [isNotify, decide_true, if_true] at this
+  have hle : (if c ∈ (s.wk w).spawning then 1 else 0) ≤ 1 := by split <;> omega
+  have h1 : rest.countP (isNotify c) = 0 := by omega
+  have h2 : (s.evtQ w).countP (isSpawnEvt c) = 0 := by omega
+  rw [List.countP_eq_zero] at h1 h2
+  exact ⟨fun q' hm => by have := h1 _ hm; simp [isNotify] at this,
+         fun f regs co hm => by have := h2 _ hm; simp [isSpawnEvt] at this⟩
+
+theorem KInv.results_ok {ρ : Nat → Nat → Nat} {ar : Nat → Nat} {s : Sys} (h : KInv ρ ar s) {t : Pid} {r : Res}
+    (hr : HasRes s t r) : ∃ v, r = .ok v := by
+  obtain ⟨w, hw⟩ := hr
+  unfold WorkerSt.resultOf at hw
+  split at hw
+  · rename_i x hx
+    have := (h.procs w t x hx).noerr
+    cases r with
+    | ok v => exact ⟨v, rfl⟩
+    | err => exact absurd hw this
+  · cases hw
+
+/-! ### the micro-steps -/
+
+theorem KInv.envStep1 {ρ : Nat → Nat → Nat} {ar : Nat → Nat} {s : Sys} (h : KInv ρ ar s) (w0 : Wid) :
+    KInv ρ ar (envStep1With Rules.current.combine s w0) := by
+  have ht : TInv (envStep1With Rules.current.combine s w0) := h.t.micro (.env w0)
+  have hw : WInv (envStep1With Rules.current.combine s w0) := h.wi.micro (.env w0)
+  have hwk := envStep1_wk Rules.current.combine s w0
+  have hev := envStep1_evts Rules.current.combine s w0
+  obtain ⟨hprog, hmono, hnew, hsp⟩ := envStep1_cmdSpec Rules.current.combine h.wi.si.r w0
+  generalize envStep1With Rules.current.combine s w0 = s' at *
+  have hsid : ∀ q f, Sid s q f → Sid s' q f :=
+    Sid.mono (fun w q y hy => ⟨y, by rw [hwk]; exact hy, rfl⟩) (fun w q f regs hm => Or.inl (hmono w _ hm))
+  refine ⟨ht, hw, by rw [hprog]; exact h.typing, ?_, ?_⟩
+  · intro w p x hx
+    rw [hwk] at hx
+    refine (h.procs w p x hx).transfer hprog hsid rfl (by rw [hwk]; exact id) ?_ (fun f regs co hq => hev w _ hq)
+    intro q hq
+    rcases hnew w _ hq with h1 | h1 | ⟨c0, f, regs, coloc, rest, hq0, h1 | ⟨h1, rfl⟩⟩
+    · exact Or.inl h1
+    · exact absurd rfl (h1.2 p q)
+    · cases h1
+    · simp only [Cmd.notifySpawn.injEq] at h1; obtain ⟨rfl, rfl⟩ := h1
+      obtain ⟨pass, hp1, _⟩ := (h.procs w p x hx).spev f regs coloc (by rw [hq0]; simp)
+      obtain ⟨w1, hw1⟩ := hsp _ _ _ _ _ hq0
+      exact Or.inr ⟨f, pass, hp1, Or.inr ⟨w1, regs, hw1⟩⟩
+  · intro w q f regs hm
+    rcases hnew w _ hm with h1 | h1 | ⟨c0, f', regs', coloc, rest, hq0, h1 | ⟨h1, _⟩⟩
+    · obtain ⟨a1, a2, a3⟩ := h.cmds w q f regs h1; exact ⟨a1, a2, fun j hj => hsid _ _ (a3 j hj)⟩
+    · have := h1.1; simp [cmdCreate] at this
+    · simp only [Cmd.spawn.injEq] at h1; obtain ⟨rfl, rfl, rfl⟩ := h1
+      have hpark := spair_evt_parked h.wi.pair (show Evt.spawn c0 f regs coloc ∈ s.evtQ w0 by rw [hq0]; simp)
+      obtain ⟨x, hx, _⟩ := (h.wi.si.sched w0).live c0 (Or.inr (Or.inl hpark))
+      have hpi := h.procs w0 c0 x hx
+      obtain ⟨pass, hp1, hp2⟩ := hpi.spev f regs coloc (by rw [hq0]; simp)
+      obtain ⟨t1, t2, t3, t4⟩ := h.typing.acts _ _ _ hp1
+      subst hp2
+      refine ⟨by simp [t1], t4, ?_⟩
+      intro j hj
+      have hj' : j < pass.length := by simpa using hj
+      obtain ⟨b1, b2⟩ := t2 j hj'
+      have hb : pass[j] < x.regs.length := by rw [hpi.rlen]; exact b1
+      have := hsid _ _ (hpi.rsid pass[j] hb)
+      rw [b2]
+      simpa [Proc.reg, hb] using this
+    · cases h1
+
+theorem KInv.tick {ρ : Nat → Nat → Nat} {ar : Nat → Nat} {s : Sys} (h : KInv ρ ar s) (ms : Nat) :
+    KInv ρ ar { s with now := s.now + ms } := by
+  have ht : TInv { s with now := s.now + ms } := h.t.micro (.tick ms)
+  have hw : WInv { s with now := s.now + ms } := h.wi.micro (.tick ms)
+  refine ⟨ht, hw, h.typing, ?_, ?_⟩
+  · intro w p x hx
+    exact (h.procs w p x hx).transfer rfl (fun _ _ h => h) rfl id (fun q hq => Or.inl hq) (fun _ _ _ hq => hq)
+  · exact h.cmds
+
+theorem KInv.checkStep {ρ : Nat → Nat → Nat} {ar : Nat → Nat} {s : Sys} (h : KInv ρ ar s) (i : Wid) (ordE : List Pid) :
+    KInv ρ ar (QM.Sys.checkStep s i ordE) := by
+  have ht : TInv (QM.Sys.checkStep s i ordE) := h.t.micro (.check i ordE)
+  have hw : WInv (QM.Sys.checkStep s i ordE) := h.wi.micro (.check i ordE)
+  have hc := CheckRel.checkStep s i ordE
+  have he := CheckEv.checkStep s i ordE
+  generalize QM.Sys.checkStep s i ordE = s' at *
+  obtain ⟨evs, hevs, hck⟩ := he.evs
+  have hold : ∀ w p f regs co, Evt.spawn p f regs co ∈ s'.evtQ w → Evt.spawn p f regs co ∈ s.evtQ w := by
+    intro w p f regs co hm
+    rw [hevs] at hm
+    simp only [upd_apply] at hm
+    split at hm
+    · rename_i e; subst e
+      rcases List.mem_append.mp hm with h1 | h1
+      · exact h1
+      · rcases hck _ h1 with ⟨_, _, _, h2⟩ | ⟨_, _, h2⟩ <;> cases h2
+    · exact hm
+  have hprocs : ∀ w, (s'.wk w).procs = (s.wk w).procs ∧ (s'.wk w).spawning = (s.wk w).spawning := by
+    intro w
+    by_cases e : w = i
+    · subst e; exact ⟨hc.procs, hc.spawning⟩
+    · rw [hc.wkOther w e]; exact ⟨rfl, rfl⟩
+  have hsid : ∀ q f, Sid s q f → Sid s' q f :=
+    Sid.mono (fun w q y hy => ⟨y, by rw [(hprocs w).1]; exact hy, rfl⟩) (fun w q f regs hm => Or.inl (by rw [hc.cmdQ]; exact hm))
+  refine ⟨ht, hw, by rw [he.prog]; exact h.typing, ?_, ?_⟩
+  · intro w p x hx
+    rw [(hprocs w).1] at hx
+    exact (h.procs w p x hx).transfer he.prog hsid rfl (by rw [(hprocs w).2]; exact id)
+      (fun q hq => Or.inl (by rw [hc.cmdQ] at hq; exact hq)) (fun f regs co hq => hold w p f regs co hq)
+  · intro w q f regs hm
+    rw [hc.cmdQ] at hm
+    obtain ⟨a1, a2, a3⟩ := h.cmds w q f regs hm
+    exact ⟨a1, a2, fun j hj => hsid _ _ (a3 j hj)⟩
+
+theorem sid_cmdStep {s s' : Sys} {i : Wid} {c : Cmd} {rest : List Cmd} (hq : s.cmdQ i = c :: rest)
+    (hcq : s'.cmdQ = upd s.cmdQ i rest) (hwk : ∀ k, k ≠ i → s'.wk k = s.wk k)
+    (hfn : ∀ p x, (s.wk i).procs p = some x → ∃ x', (s'.wk i).procs p = some x' ∧ x'.fn = x.fn)
+    (hcr : ∀ q f regs, c = .spawn q f regs → ∃ y, (s'.wk i).procs q = some y ∧ y.fn = f) :
+    ∀ q f, Sid s q f → Sid s' q f := by
+  apply Sid.mono
+  · intro w q y hy
+    by_cases e : w = i
+    · subst e; exact hfn q y hy
+    · rw [hwk w e]; exact ⟨y, hy, rfl⟩
+  · intro w q f regs hm
+    by_cases e : w = i
+    · subst e
+      rw [hq] at hm
+      rcases List.mem_cons.mp hm with h1 | h1
+      · obtain ⟨y, hy, hf⟩ := hcr q f regs h1.symm
+        exact Or.inr ⟨w, y, hy, hf⟩
+      · exact Or.inl (by rw [hcq]; simp [h1])
+    · exact Or.inl (by rw [hcq]; simp [upd_apply, e, hm])
+
+theorem KInv.cmdStep1 {ρ : Nat → Nat → Nat} {ar : Nat → Nat} {s : Sys} (h : KInv ρ ar s) (i : Wid) :
+    KInv ρ ar (cmdStep1With Rules.current s i) := by
+  have ht : TInv (cmdStep1With Rules.current s i) := h.t.micro (.cmd i)
+  have hw : WInv (cmdStep1With Rules.current s i) := h.wi.micro (.cmd i)
+  revert ht hw
+  unfold cmdStep1With
+  split
+  · intro _ _; exact h
+  · rename_i c rest hq
+    intro ht hw
+    have hf := handleCmd_frame Rules.current { s with cmdQ := upd s.cmdQ i rest } i c
+    have hne := handleCmd_evts_nospawn Rules.current { s with cmdQ := upd s.cmdQ i rest } i c
+    have hok := h.wi.si.r.cmds i c (by rw [hq]; simp)
+    have hhead : c ∈ s.cmdQ i := by rw [hq]; simp
+    obtain ⟨hcq, _, hprog, _, _, hoth⟩ := hf
+    have hcq' : ∀ w c', c' ∈ (handleCmdWith Rules.current { s with cmdQ := upd s.cmdQ i rest } i c).cmdQ w → c' ∈ s.cmdQ w := by
+      intro w c' hc'; rw [hcq] at hc'; exact mem_upd_tail hq hc'
+    have hcqi : (handleCmdWith Rules.current { s with cmdQ := upd s.cmdQ i rest } i c).cmdQ i = rest := by
+      rw [hcq]; simp
+    have hevo : ∀ k, k ≠ i → ∀ e, e ∈ (handleCmdWith Rules.current { s with cmdQ := upd s.cmdQ i rest } i c).evtQ k → e ∈ s.evtQ k := by
+      intro k hk e he; rw [(hoth k hk).2] at he; exact he
+    have hwk : ∀ k, k ≠ i → (handleCmdWith Rules.current { s with cmdQ := upd s.cmdQ i rest } i c).wk k = s.wk k :=
+      fun k hk => (hoth k hk).1
+    have hspold : ∀ p f regs co, Evt.spawn p f regs co ∈ (handleCmdWith Rules.current { s with cmdQ := upd s.cmdQ i rest } i c).evtQ i →
+        Evt.spawn p f regs co ∈ s.evtQ i := by
+      intro p f regs co hm
+      rcases hne i _ hm with h1 | h1
+      · exact h1
+      · exact absurd rfl (h1 p f regs co)
+    by_cases hquiet : quietCmd c
+    · -- commands that leave the control part alone
+      have hcs : CtlSame (s.wk i) ((handleCmdWith Rules.current { s with cmdQ := upd s.cmdQ i rest } i c).wk i) :=
+        handleCmd_ctlSame { s with cmdQ := upd s.cmdQ i rest } i c hquiet
+      generalize handleCmdWith Rules.current { s with cmdQ := upd s.cmdQ i rest } i c = s' at *
+      have hsid : ∀ q f, Sid s q f → Sid s' q f := by
+        apply sid_cmdStep hq hcq hwk
+        · intro p x hx
+          obtain ⟨x', hx', hc⟩ := hcs.fwd hx
+          exact ⟨x', hx', (ctl_eq hc).1⟩
+        · intro q f regs e; subst e; exact hquiet.elim
+      obtain ⟨k1, k2⟩ := h.workerFrame i hprog hwk hcq' hevo hsid (by
+        intro p x' hx'
+        obtain ⟨x, hx, hc⟩ := hcs.back hx'
+        exact (h.procs i p x hx).transfer hprog hsid hc (by rw [hcs.1]; exact id)
+          (fun q hm => Or.inl (hcq' i _ hm)) (fun f regs co hm => hspold p f regs co hm))
+      exact ⟨ht, hw, by rw [hprog]; exact h.typing, k1, k2⟩
+    · cases c with
+      | misc => exact absurd trivial hquiet
+      | deliver t m => exact absurd trivial hquiet
+      | queryAwait a ts => exact absurd trivial hquiet
+      | getResult req p => exact absurd trivial hquiet
+      | updateAwait a rs =>
+        exfalso; apply hquiet
+        intro t r hm
+        exact h.results_ok (h.t.core.updc i a rs t r hhead hm)
+      | start p => exact hok.elim
+      | resume p fn => exact hok.elim
+      | spawn q f regs =>
+        obtain ⟨hrq, hflt, _⟩ := hok
+        have hfresh : ¬ known s i q := (h.wi.si.fresh i).2 q (mem_creates.mpr ⟨f, regs, hhead⟩)
+        have hnone : (s.wk i).procs q = none := by
+          cases hp : (s.wk i).procs q with
+          | none => rfl
+          | some y => exact absurd (by simp [known, hp]) hfresh
+        have hpr : ((handleCmdWith Rules.current { s with cmdQ := upd s.cmdQ i rest } i (.spawn q f regs)).wk i).procs =
+              upd (s.wk i).procs q (some (Proc.fresh f (q :: regs))) ∧
+            ((handleCmdWith Rules.current { s with cmdQ := upd s.cmdQ i rest } i (.spawn q f regs)).wk i).spawning = (s.wk i).spawning := by
+          simp [handleCmdWith, Nat.not_le.mpr hflt, WorkerSt.setProc]
+        obtain ⟨c1, c2, c3⟩ := h.cmds i q f regs hhead
+        generalize handleCmdWith Rules.current { s with cmdQ := upd s.cmdQ i rest } i (.spawn q f regs) = s' at *
+        obtain ⟨hpr1, hpr2⟩ := hpr
+        have hsid : ∀ q' f', Sid s q' f' → Sid s' q' f' := by
+          apply sid_cmdStep hq hcq hwk
+          · intro p x hx
+            have hpq : p ≠ q := by intro e; subst e; rw [hnone] at hx; cases hx
+            exact ⟨x, by rw [hpr1]; simp [hpq, hx], rfl⟩
+          · intro q' f' regs' e
+            simp only [Cmd.spawn.injEq] at e; obtain ⟨rfl, rfl, rfl⟩ := e
+            rw [hpr1]; exact ⟨_, upd_same _ _ _, rfl⟩
+        obtain ⟨k1, k2⟩ := h.workerFrame i hprog hwk hcq' hevo hsid (by
+          intro p x' hx'
+          rw [hpr1] at hx'
+          by_cases hpq : p = q
+          · subst hpq
+            simp only [upd_same, Option.some.injEq] at hx'; subst hx'
+            have hnk : p ∉ (s.wk i).spawning := fun hin => by
+              obtain ⟨y, hy, _⟩ := (h.wi.si.sched i).live p (Or.inr (Or.inl hin))
+              rw [hnone] at hy; cases hy
+            refine ⟨by simp [Proc.fresh], rfl, Nat.zero_le _, by simp [Proc.fresh], Trace.zero _, ?_, ?_, by simp [Proc.fresh], ?_, ?_⟩
+            · show (p :: regs).length = base s'.prog ar f 0
+              simp [base, nspawn, c1]; omega
+            · intro r hr
+              have hr' : r < (p :: regs).length := hr
+              show Sid s' ((p :: regs)[r]'hr') (ρ f r)
+              cases r with
+              | zero =>
+                simp only [List.getElem_cons_zero]; rw [c2]
+                exact Or.inl ⟨i, Proc.fresh f (p :: regs), by rw [hpr1]; simp, rfl⟩
+              | succ j =>
+                simp only [List.getElem_cons_succ]
+                exact hsid _ _ (c3 j (by simpa using hr'))
+            · intro q' hm
+              exact absurd (spair_notify_parked h.wi.pair (hcq' i _ hm)) hnk
+            · intro f' regs' co hm
+              exact absurd (spair_evt_parked h.wi.pair (hspold p f' regs' co hm)) hnk
+          · simp only [upd_apply, hpq, if_false] at hx'
+            exact (h.procs i p x' hx').transfer hprog hsid rfl (by rw [hpr2]; exact id)
+              (fun q' hm => Or.inl (hcq' i _ hm)) (fun f' regs' co hm => hspold p f' regs' co hm))
+        exact ⟨ht, hw, by rw [hprog]; exact h.typing, k1, k2⟩
+      | notifySpawn caller q =>
+        have hpark := spair_notify_parked h.wi.pair hhead
+        obtain ⟨x, hx, hxres⟩ := (h.wi.si.sched i).live caller (Or.inr (Or.inl hpark))
+        have hpx := h.procs i caller x hx
+        obtain ⟨f, pass, hsc, hsidq⟩ := hpx.notif q hhead
+        obtain ⟨hnorest, hnoev⟩ := spair_head_notify h.wi.pair hq
+        have hpr : ((handleCmdWith Rules.current { s with cmdQ := upd s.cmdQ i rest } i (.notifySpawn caller q)).wk i).procs =
+              upd (s.wk i).procs caller (some { x with regs := x.regs ++ [q], pc := x.pc + 1, spawnIssued := false }) ∧
+            ((handleCmdWith Rules.current { s with cmdQ := upd s.cmdQ i rest } i (.notifySpawn caller q)).wk i).spawning =
+              serase (s.wk i).spawning caller ∧
+            (handleCmdWith Rules.current { s with cmdQ := upd s.cmdQ i rest } i (.notifySpawn caller q)).evtQ = s.evtQ := by
+          simp only [handleCmdWith, hx]
+          split <;> simp
+        generalize handleCmdWith Rules.current { s with cmdQ := upd s.cmdQ i rest } i (.notifySpawn caller q) = s' at *
+        obtain ⟨hpr1, hpr2, hpr3⟩ := hpr
+        have hsid : ∀ q' f', Sid s q' f' → Sid s' q' f' := by
+          apply sid_cmdStep hq hcq hwk
+          · intro p y hy
+            by_cases hpc : p = caller
+            · subst hpc; rw [hx] at hy; simp only [Option.some.injEq] at hy; subst hy
+              rw [hpr1]; exact ⟨_, upd_same _ _ _, rfl⟩
+            · exact ⟨y, by rw [hpr1]; simp [hpc, hy], rfl⟩
+          · intro q' f' regs' e; cases e
+        obtain ⟨t1, t2, t3, t4⟩ := h.typing.acts _ _ _ hsc
+        obtain ⟨k1, k2⟩ := h.workerFrame i hprog hwk hcq' hevo hsid (by
+          intro p x' hx'
+          rw [hpr1] at hx'
+          by_cases hpc : p = caller
+          · subst hpc
+            simp only [upd_same, Option.some.injEq] at hx'; subst hx'
+            refine ⟨by simp [hxres], hpx.nofail, ?_, by simp [hxres], ?_, ?_, ?_, by simp, ?_, ?_⟩
+            · rw [hprog]; exact lt_of_getElem?_some hsc
+            · rw [hprog]; exact Trace.spawn _ _ _ f pass hpx.trace hsc
+            · show (x.regs ++ [q]).length = base s'.prog ar x.fn (x.pc + 1)
+              rw [hprog]; unfold base; rw [nspawn_take_succ hsc]
+              have := hpx.rlen; unfold base at this
+              simp [isSpawnAct, this]; omega
+            · intro r hr
+              show Sid s' (x.regs ++ [q])[r] (ρ x.fn r)
+              by_cases hlt : r < x.regs.length
+              · rw [List.getElem_append_left hlt]; exact hsid _ _ (hpx.rsid r hlt)
+              · have hr' : r = x.regs.length := by simp at hr; omega
+                subst hr'
+                simp only [List.getElem_concat_length]
+                rw [hpx.rlen, t3]; exact hsid _ _ hsidq
+            · intro q' hm
+              rw [hcq] at hm; simp only [upd_same] at hm
+              exact absurd hm (hnorest q')
+            · intro f' regs' co hm
+              rw [hpr3] at hm; exact absurd hm (hnoev f' regs' co)
+          · simp only [upd_apply, hpc, if_false] at hx'
+            exact (h.procs i p x' hx').transfer hprog hsid rfl
+              (by rw [hpr2]; intro hin; exact mem_serase.mpr ⟨hin, hpc⟩)
+              (fun q' hm => Or.inl (hcq' i _ hm)) (fun f' regs' co hm => hspold p f' regs' co hm))
+        exact ⟨ht, hw, by rw [hprog]; exact h.typing, k1, k2⟩
+
+/-! ### executor step -/
+
+theorem KInv.runnable {ρ : Nat → Nat → Nat} {ar : Nat → Nat} {s : Sys} (h : KInv ρ ar s) {i : Wid} {cur : Pid} {x : Proc}
+    (hx : (s.wk i).procs cur = some x) (hres : x.result = none) (hiss : x.spawnIssued = false) :
+    Runnable s.prog ρ ar x := by
+  have hpx := h.procs i cur x hx
+  refine ⟨hres, hiss, hpx.nofail, hpx.pcle, hpx.trace, hpx.rlen, ?_⟩
+  intro r v hr hm
+  obtain ⟨w, hw⟩ := h.t.core.stored i cur x _ v hx hm
+  unfold WorkerSt.resultOf at hw
+  split at hw
+  · rename_i y hy
+    have hpy := h.procs w _ y hy
+    obtain ⟨f1, f2, _⟩ := hpy.fin v hw
+    have hreg : x.reg r = x.regs[r] := by simp [Proc.reg, hr]
+    have hfn : y.fn = ρ x.fn r := by
+      have := hpx.rsid r hr
+      rw [← hreg] at this
+      exact this.proc_fn h.wi.si hy
+    refine ⟨y.acc, ?_, ?_⟩
+    · rw [f1, ← hfn]; rfl
+    · have := hpy.trace; rw [f2, hfn] at this; exact this
+  · cases hw
+
+theorem PInv.afterSlice {ρ : Nat → Nat → Nat} {ar : Nat → Nat} {s s' : Sys} {i : Wid} {cur : Pid} {x x' x'' : Proc} {out : Outcome}
+    (hpx : PInv ρ ar s i cur x) (hok : SliceOK s.prog ρ x (x', out)) (hprog : s'.prog = s.prog)
+    (hsid : ∀ q f, Sid s q f → Sid s' q f)
+    (e1 : x''.fn = x'.fn) (e2 : x''.pc = x'.pc) (e3 : x''.regs = x'.regs) (e4 : x''.acc = x'.acc)
+    (e5 : x''.spawnIssued = x'.spawnIssued) (e7 : x''.awaitFailed = x'.awaitFailed)
+    (e6 : x''.result = none ∨ (out = .done ∧ x''.result = some (.ok x'.value)))
+    (hnotif : ∀ q, Cmd.notifySpawn cur q ∉ s'.cmdQ i)
+    (hspev : ∀ f regs co, Evt.spawn cur f regs co ∈ s'.evtQ i → out = .spawn f regs)
+    (hpark : ∀ f regs, out = .spawn f regs → cur ∈ (s'.wk i).spawning) : PInv ρ ar s' i cur x'' := by
+  have hfn : x''.fn = x.fn := e1.trans hok.fn
+  have hregs : x''.regs = x.regs := e3.trans hok.regs
+  have ev : x''.value = x'.value := by simp [Proc.value, e1, e4]
+  have er : x''.reg = x'.reg := by funext r; simp [Proc.reg, e3]
+  refine ⟨?_, ?_, ?_, ?_, ?_, ?_, ?_, ?_, ?_, ?_⟩
+  · rcases e6 with e | ⟨_, e⟩ <;> rw [e] <;> simp
+  · rw [e7]; exact hok.nofail
+  · rw [e2, hfn, hprog]; exact hok.pcle
+  · intro v hv
+    rcases e6 with e | ⟨hd, e⟩
+    · rw [e] at hv; cases hv
+    · rw [e] at hv; simp only [Option.some.injEq, Res.ok.injEq] at hv
+      refine ⟨by rw [ev]; exact hv.symm, by rw [e2, hfn, hprog]; exact hok.done hd, ?_⟩
+      rw [e5]; exact hok.other (by intro f regs; rw [hd]; simp)
+  · rw [hfn, e2, e4, hprog]; exact hok.trace
+  · rw [hregs, hfn, e2, hprog, hpx.rlen]; unfold base; rw [hok.nsp]
+  · intro r hr
+    have hr' : r < x.regs.length := hregs ▸ hr
+    have := hsid _ _ (hpx.rsid r hr')
+    simpa only [hregs, hfn] using this
+  · intro hi
+    by_cases hsp : ∃ f regs, out = .spawn f regs
+    · obtain ⟨f, regs, ho⟩ := hsp
+      obtain ⟨_, pass, h2, _⟩ := hok.spawnOut f regs ho
+      exact ⟨hpark f regs ho, f, pass, by rw [hfn, e2, hprog]; exact h2⟩
+    · have := hok.other (fun f regs ho => hsp ⟨f, regs, ho⟩)
+      rw [e5, this] at hi; cases hi
+  · intro q hq; exact absurd hq (hnotif q)
+  · intro f regs co hq
+    obtain ⟨_, pass, h2, h3⟩ := hok.spawnOut f regs (hspev f regs co hq)
+    exact ⟨pass, by rw [hfn, e2, hprog]; exact h2, by rw [er]; exact h3⟩
+
+theorem finish_ctl (w : WorkerSt) (cur : Pid) (x : Proc) (ordQ : List Pid) (hne : x.result ≠ some .err) :
+    CtlSame { w with procs := upd w.procs cur (some { x with result := some (.ok x.value) }) } (w.finish cur x ordQ) := by
+  unfold WorkerSt.finish
+  have hfr : x.finalRes = .ok x.value := by
+    unfold Proc.finalRes
+    split
+    · rename_i he; exact absurd he hne
+    · rfl
+  rw [hfr]
+  dsimp only
+  exact CtlSame.foldl _ (fun w' a => CtlSame.notifyResultOk w' a cur x.value) _ _
+
+theorem KInv.execFrame {ρ : Nat → Nat → Nat} {ar : Nat → Nat} {s s' : Sys} (h : KInv ρ ar s) (ht : TInv s') (hw : WInv s')
+    (i : Wid) (hprog : s'.prog = s.prog) (hcmd : s'.cmdQ = s.cmdQ) (hwk : ∀ k, k ≠ i → s'.wk k = s.wk k)
+    (hevo : ∀ k, k ≠ i → ∀ e, e ∈ s'.evtQ k → e ∈ s.evtQ k)
+    (hg : (∀ p x, (s.wk i).procs p = some x → ∃ x', (s'.wk i).procs p = some x' ∧ x'.fn = x.fn) ∧
+      ((∀ q f, Sid s q f → Sid s' q f) → ∀ p x', (s'.wk i).procs p = some x' → PInv ρ ar s' i p x')) :
+    KInv ρ ar s' := by
+  obtain ⟨hfn, hpi⟩ := hg
+  have hsid : ∀ q f, Sid s q f → Sid s' q f := by
+    apply Sid.mono
+    · intro w q y hy
+      by_cases e : w = i
+      · subst e; exact hfn q y hy
+      · rw [hwk w e]; exact ⟨y, hy, rfl⟩
+    · intro w q f regs hm; exact Or.inl (by rw [hcmd]; exact hm)
+  obtain ⟨k1, k2⟩ := h.workerFrame i hprog hwk (fun w c hc => by rw [hcmd] at hc; exact hc) hevo hsid (hpi hsid)
+  exact ⟨ht, hw, by rw [hprog]; exact h.typing, k1, k2⟩
+
+def AfterRel (x' x'' : Proc) (out : Outcome) : Prop :=
+  x''.fn = x'.fn ∧ x''.pc = x'.pc ∧ x''.regs = x'.regs ∧ x''.acc = x'.acc ∧ x''.spawnIssued = x'.spawnIssued ∧
+  x''.awaitFailed = x'.awaitFailed ∧ (x''.result = none ∨ (out = .done ∧ x''.result = some (.ok x'.value)))
+
+/-- the two things `KInv.execFrame` asks for -/
+def ExecGoal (ρ : Nat → Nat → Nat) (ar : Nat → Nat) (s s' : Sys) (i : Wid) : Prop :=
+  (∀ p x, (s.wk i).procs p = some x → ∃ x', (s'.wk i).procs p = some x' ∧ x'.fn = x.fn) ∧
+  ((∀ q f, Sid s q f → Sid s' q f) → ∀ p x', (s'.wk i).procs p = some x' → PInv ρ ar s' i p x')
+
+theorem exec_same_case {ρ : Nat → Nat → Nat} {ar : Nat → Nat} {s s' : Sys} (h : KInv ρ ar s) (i : Wid)
+    (hprog : s'.prog = s.prog) (hcmd : s'.cmdQ = s.cmdQ)
+    (hcs : CtlSame (s.wk i) (s'.wk i)) (hev : s'.evtQ i = s.evtQ i) : ExecGoal ρ ar s s' i := by
+  refine ⟨?_, ?_⟩
+  · intro p x hx
+    obtain ⟨x', hx', hc⟩ := hcs.fwd hx
+    exact ⟨x', hx', (ctl_eq hc).1⟩
+  · intro hsid p x' hx'
+    obtain ⟨x, hx, hc⟩ := hcs.back hx'
+    exact (h.procs i p x hx).transfer hprog hsid hc (by rw [hcs.1]; exact id)
+      (fun q hm => Or.inl (by rw [hcmd] at hm; exact hm)) (fun f regs co hm => by rw [hev] at hm; exact hm)
+
+theorem exec_slice_case {ρ : Nat → Nat → Nat} {ar : Nat → Nat} {s s' : Sys} (h : KInv ρ ar s) (i : Wid) {cur : Pid}
+    {x x' : Proc} {out : Outcome} (hx : (s.wk i).procs cur = some x) (hnsp : cur ∉ (s.wk i).spawning)
+    (hok : SliceOK s.prog ρ x (x', out))
+    (hprog : s'.prog = s.prog) (hcmd : s'.cmdQ = s.cmdQ)
+    (hsp : ∀ p, p ∈ (s.wk i).spawning → p ∈ (s'.wk i).spawning)
+    (hpark : ∀ f regs, out = .spawn f regs → cur ∈ (s'.wk i).spawning)
+    (hcur : ∃ x'', (s'.wk i).procs cur = some x'' ∧ AfterRel x' x'' out)
+    (hoth : ∀ p, p ≠ cur → ((s'.wk i).procs p).map Ctl = ((s.wk i).procs p).map Ctl)
+    (hev : ∀ e, e ∈ s'.evtQ i → e ∈ s.evtQ i ∨ (∀ a f regs co, e ≠ .spawn a f regs co) ∨
+      (∃ f regs, out = .spawn f regs ∧ e = .spawn cur f regs none)) : ExecGoal ρ ar s s' i := by
+  obtain ⟨x'', hx'', e1, e2, e3, e4, e5, e7, e6⟩ := hcur
+  have hback : ∀ p, p ≠ cur → ∀ y', (s'.wk i).procs p = some y' → ∃ y, (s.wk i).procs p = some y ∧ Ctl y' = Ctl y := by
+    intro p hp y' hy'
+    have := hoth p hp
+    rw [hy'] at this
+    cases hw : (s.wk i).procs p with
+    | none => rw [hw] at this; cases this
+    | some y => rw [hw] at this; simp only [Option.map_some, Option.some.injEq] at this; exact ⟨y, rfl, this⟩
+  refine ⟨?_, ?_⟩
+  · intro p y hy
+    by_cases hp : p = cur
+    · subst hp; rw [hx] at hy; simp only [Option.some.injEq] at hy; subst hy
+      exact ⟨x'', hx'', e1.trans hok.fn⟩
+    · have := hoth p hp
+      rw [hy] at this
+      cases hw : (s'.wk i).procs p with
+      | none => rw [hw] at this; cases this
+      | some y' =>
+        rw [hw] at this; simp only [Option.map_some, Option.some.injEq] at this
+        exact ⟨y', rfl, (ctl_eq this).1⟩
+  · intro hsid p y' hy'
+    have hnon : ∀ q, Cmd.notifySpawn cur q ∉ s.cmdQ i := fun q hm => hnsp (spair_notify_parked h.wi.pair hm)
+    have hnoe : ∀ f regs co, Evt.spawn cur f regs co ∉ s.evtQ i := fun f regs co hm => hnsp (spair_evt_parked h.wi.pair hm)
+    by_cases hp : p = cur
+    · subst hp
+      rw [hx''] at hy'; simp only [Option.some.injEq] at hy'; subst hy'
+      refine (h.procs i p x hx).afterSlice hok hprog hsid e1 e2 e3 e4 e5 e7 e6 ?_ ?_ hpark
+      · intro q hm; rw [hcmd] at hm; exact hnon q hm
+      · intro f regs co hm
+        rcases hev _ hm with h1 | h1 | ⟨f', regs', ho, h1⟩
+        · exact absurd h1 (hnoe f regs co)
+        · exact absurd rfl (h1 p f regs co)
+        · simp only [Evt.spawn.injEq] at h1; obtain ⟨_, rfl, rfl, _⟩ := h1; exact ho
+    · obtain ⟨y, hy, hc⟩ := hback p hp y' hy'
+      refine (h.procs i p y hy).transfer hprog hsid hc (hsp p) (fun q hm => Or.inl (by rw [hcmd] at hm; exact hm)) ?_
+      intro f regs co hm
+      rcases hev _ hm with h1 | h1 | ⟨f', regs', ho, h1⟩
+      · exact h1
+      · exact absurd rfl (h1 p f regs co)
+      · simp only [Evt.spawn.injEq] at h1; exact absurd h1.1 hp
+
+theorem KInv.execStep {ρ : Nat → Nat → Nat} {ar : Nat → Nat} {s : Sys} (h : KInv ρ ar s) (i : Wid) (fuel : Nat) (ordQ : List Pid) :
+    KInv ρ ar (QM.Sys.execStep s i fuel ordQ) := by
+  have ht : TInv (QM.Sys.execStep s i fuel ordQ) := h.t.micro (.exec i fuel ordQ)
+  have hw : WInv (QM.Sys.execStep s i fuel ordQ) := h.wi.micro (.exec i fuel ordQ)
+  obtain ⟨hcmd, _, hprog, _, _, _, hoth⟩ := execStep_frame s i fuel ordQ
+  refine h.execFrame ht hw i hprog hcmd (fun k hk => (hoth k hk).1)
+    (fun k hk e he => by rw [(hoth k hk).2] at he; exact he) ?_
+  clear ht hw hoth hcmd hprog
+  show ExecGoal ρ ar s (QM.Sys.execStep s i fuel ordQ) i
+  unfold QM.Sys.execStep
+  dsimp only
+  have hs0 : WSched ((s.wk i).checkExpired s.prog s.now ordQ) := (h.wi.si.sched i).checkExpired _ _ _
+  have hp0 : ((s.wk i).checkExpired s.prog s.now ordQ).procs = (s.wk i).procs := rfl
+  have hsp0 : ((s.wk i).checkExpired s.prog s.now ordQ).spawning = (s.wk i).spawning := rfl
+  generalize (s.wk i).checkExpired s.prog s.now ordQ = w0 at hs0 hp0 hsp0 ⊢
+  split
+  · exact exec_same_case h i rfl rfl (by simp only [setWk_wk, upd_same]; exact CtlSame.of_procs hp0 hsp0) rfl
+  · rename_i cur rest hq0
+    split
+    · exact exec_same_case h i rfl rfl (by simp only [setWk_wk, upd_same]; exact CtlSame.of_procs hp0 hsp0) rfl
+    · rename_i x hx0
+      have hx : (s.wk i).procs cur = some x := by rw [← hp0]; exact hx0
+      have hcurq : cur ∈ w0.queue := by rw [hq0]; simp
+      obtain ⟨x1, hx1, hres1⟩ := hs0.live cur (Or.inl hcurq)
+      have hres : x.result = none := by
+        have : w0.procs cur = some x := hx0
+        rw [this] at hx1; simp only [Option.some.injEq] at hx1; subst hx1; exact hres1
+      have hnsp : cur ∉ (s.wk i).spawning := by rw [← hsp0]; exact (hs0.dqs cur hcurq).1
+      split
+      · rename_i herr; exact absurd herr (h.procs i cur x hx).noerr
+      · have hiss : x.spawnIssued = false := by
+          cases hb : x.spawnIssued with
+          | false => rfl
+          | true => exact absurd ((h.procs i cur x hx).parked hb).1 hnsp
+        have hok := slice_spec h.typing s.now cur fuel x (h.runnable hx hres hiss)
+        generalize slice s.prog s.now cur fuel x = r at hok ⊢
+        obtain ⟨x', out⟩ := r
+        dsimp only
+        have hothp : ∀ p, p ≠ cur → ((upd w0.procs cur (some x')) p).map Ctl = ((s.wk i).procs p).map Ctl := by
+          intro p hp; simp [hp, hp0]
+        cases out with
+        | cont =>
+          refine exec_slice_case h i hx hnsp hok rfl rfl ?_ ?_ ?_ ?_ ?_
+          · intro p hp; simpa [hsp0] using hp
+          · intro f regs ho; cases ho
+          · exact ⟨x', by simp, rfl, rfl, rfl, rfl, rfl, rfl, Or.inl hok.res⟩
+          · intro p hp; simpa using hothp p hp
+          · intro e he; exact Or.inl (by simpa using he)
+        | blocked =>
+          refine exec_slice_case h i hx hnsp hok rfl rfl ?_ ?_ ?_ ?_ ?_
+          · intro p hp; simpa [hsp0] using hp
+          · intro f regs ho; cases ho
+          · exact ⟨x', by simp, rfl, rfl, rfl, rfl, rfl, rfl, Or.inl hok.res⟩
+          · intro p hp; simpa using hothp p hp
+          · intro e he; exact Or.inl (by simpa using he)
+        | send t m =>
+          refine exec_slice_case h i hx hnsp hok rfl rfl ?_ ?_ ?_ ?_ ?_
+          · intro p hp; simpa [hsp0] using hp
+          · intro f regs ho; cases ho
+          · exact ⟨x', by simp, rfl, rfl, rfl, rfl, rfl, rfl, Or.inl hok.res⟩
+          · intro p hp; simpa using hothp p hp
+          · intro e he
+            have he' : e ∈ upd s.evtQ i (s.evtQ i ++ [Evt.deliver t m]) i := he
+            rcases mem_upd_append he' with h1 | ⟨_, rfl⟩
+            · exact Or.inl h1
+            · exact Or.inr (Or.inl (by intros; simp))
+        | awaitInit ts =>
+          refine exec_slice_case h i hx hnsp hok rfl rfl ?_ ?_ ?_ ?_ ?_
+          · intro p hp; simpa [hsp0] using hp
+          · intro f regs ho; cases ho
+          · exact ⟨x', by simp, rfl, rfl, rfl, rfl, rfl, rfl, Or.inl hok.res⟩
+          · intro p hp; simpa using hothp p hp
+          · intro e he
+            have he' : e ∈ upd s.evtQ i (s.evtQ i ++ [Evt.await cur ts]) i := he
+            rcases mem_upd_append he' with h1 | ⟨_, rfl⟩
+            · exact Or.inl h1
+            · exact Or.inr (Or.inl (by intros; simp))
+        | spawn f regs =>
+          refine exec_slice_case h i hx hnsp hok rfl rfl ?_ ?_ ?_ ?_ ?_
+          · intro p hp; simp only [pushEvt_wk, setWk_wk, upd_same]; exact mem_sinsert.mpr (Or.inl (by rw [hsp0]; exact hp))
+          · intro f' regs' ho; simp only [pushEvt_wk, setWk_wk, upd_same]; exact mem_sinsert.mpr (Or.inr rfl)
+          · exact ⟨x', by simp, rfl, rfl, rfl, rfl, rfl, rfl, Or.inl hok.res⟩
+          · intro p hp; simpa using hothp p hp
+          · intro e he
+            have he' : e ∈ upd s.evtQ i (s.evtQ i ++ [Evt.spawn cur f regs none]) i := he
+            rcases mem_upd_append he' with h1 | ⟨_, rfl⟩
+            · exact Or.inl h1
+            · exact Or.inr (Or.inr ⟨f, regs, rfl, rfl⟩)
+        | failed => exact absurd rfl hok.notFailed
+        | done =>
+          have hfc := finish_ctl { w0 with queue := rest, procs := upd w0.procs cur (some x') } cur x' ordQ
+            (by rw [hok.res]; simp)
+          generalize WorkerSt.finish { w0 with queue := rest, procs := upd w0.procs cur (some x') } cur x' ordQ = wf at hfc ⊢
+          refine exec_slice_case h i hx hnsp hok rfl rfl ?_ ?_ ?_ ?_ ?_
+          · intro p hp; simp only [setWk_wk, upd_same]; rw [hfc.1]; simpa [hsp0] using hp
+          · intro f regs ho; cases ho
+          · obtain ⟨x'', hx'', hc⟩ := hfc.fwd (p := cur) (x := { x' with result := some (.ok x'.value) }) (by simp)
+            obtain ⟨c1, c2, c3, c4, c5, c6, c7⟩ := ctl_eq hc
+            exact ⟨x'', by simpa using hx'', c1, c2, c3, c4, c5, c7, Or.inr ⟨rfl, c6⟩⟩
+          · intro p hp
+            simp only [setWk_wk, upd_same]
+            rw [hfc.2 p]; simpa [hp] using hothp p hp
+          · intro e he; exact Or.inl (by simpa using he)
+
+theorem KInv.micro {ρ : Nat → Nat → Nat} {ar : Nat → Nat} {s : Sys} (h : KInv ρ ar s) (m : Micro) :
+    KInv ρ ar (microStep Rules.current s m) := by
+  cases m with
+  | env w => exact h.envStep1 w
+  | cmd i => exact h.cmdStep1 i
+  | exec i fuel ordQ => exact h.execStep i fuel ordQ
+  | check i ordE => exact h.checkStep i ordE
+  | tick ms => exact h.tick ms
+
+/-! ### from the start -/
+
+theorem envStep1_prog (combine) (s : Sys) (w : Wid) : (envStep1With combine s w).prog = s.prog := by
+  unfold envStep1With
+  split
+  · rfl
+  · rename_i e rest _
+    cases e with
+    | spawn c fn regs coloc => simp only [handleEventWith, handleSpawn]; split <;> rfl
+    | deliver t m => simp only [handleEventWith, handleDeliver]; split <;> rfl
+    | await a ts =>
+      simp only [handleEventWith, handleAwait]
+      split
+      · rfl
+      · exact (foldPush_spec _ _ _).2.2.2.1
+    | procResults a rs =>
+      simp only [handleEventWith, handleProcResultsWith]
+      repeat' split
+      all_goals rfl
+    | resultResp req r => rfl
+
+theorem microStep_prog (R : Rules) (s : Sys) (m : Micro) : (microStep R s m).prog = s.prog := by
+  cases m with
+  | env w => exact envStep1_prog R.combine s w
+  | cmd i =>
+    show (cmdStep1With R s i).prog = s.prog
+    unfold cmdStep1With
+    split
+    · rfl
+    · exact (handleCmd_frame R _ i _).2.2.1
+  | exec i fuel ordQ => exact (execStep_frame s i fuel ordQ).2.2.1
+  | check i ordE => exact (CheckEv.checkStep s i ordE).prog
+  | tick ms => rfl
+
+theorem run_prog (R : Rules) (s : Sys) (cs : List Choice) : (runWith R s cs).prog = s.prog :=
+  run_invariant R (fun s' => s'.prog = s.prog) (fun s' m h => (microStep_prog R s' m).trans h) cs s rfl
+
+theorem KInv.of_started {ρ : Nat → Nat → Nat} {ar : Nat → Nat} {s : Sys} (h : Started s) (hty : RegTyping s.prog ρ ar) :
+    KInv ρ ar s := by
+  have hcmd : ∀ w c, c ∈ s.cmdQ w → c = .misc ∨ ∃ r p, c = .getResult r p := by
+    intro w c hc
+    by_cases ew : w = 0
+    · subst ew
+      obtain ⟨req, hq⟩ := h.cmd0
+      rw [hq] at hc; simp at hc
+      exact Or.inr ⟨req, 0, hc⟩
+    · exact Or.inl (h.cmdOther w ew c hc)
+  refine ⟨TInv.of_started h, WInv.of_started h, hty, ?_, ?_⟩
+  · intro w p x hx
+    have hx0 := hx
+    rw [h.procs] at hx
+    split at hx
+    · rename_i hwp
+      obtain ⟨rfl, rfl⟩ := hwp
+      simp only [Option.some.injEq] at hx; subst hx
+      refine ⟨by simp, by simp [Proc.sleeping, Proc.fresh], Nat.zero_le _, by simp, Trace.zero 0, ?_, ?_,
+        by simp [Proc.sleeping, Proc.fresh], ?_, ?_⟩
+      · show ([0] : List Pid).length = base s.prog ar 0 0
+        simp [base, nspawn, hty.main0]
+      · intro r hr
+        have hr' : r < ([0] : List Pid).length := hr
+        have : r = 0 := by simpa using hr'
+        subst this
+        show Sid s 0 (ρ 0 0)
+        rw [hty.self0]
+        exact Or.inl ⟨0, _, hx0, rfl⟩
+      · intro q hm
+        rcases hcmd 0 _ hm with h1 | ⟨_, _, h1⟩ <;> cases h1
+      · intro f regs co hm; rw [h.evtQ 0] at hm; simp at hm
+    · cases hx
+  · intro w q f regs hm
+    rcases hcmd w _ hm with h1 | ⟨_, _, h1⟩ <;> cases h1
+
+/-- **Every process's history is the Kahn trace of its script** (reachable states, current rules):
+the invariant holds from the first started state on. -/
+theorem kahn_invariant (ρ : Nat → Nat → Nat) (ar : Nat → Nat) (n : Nat) (prog : Prog) (req : Nat) (hn : 0 < n)
+    (hwf : ProgWF prog) (hty : RegTyping prog ρ ar) (cs : List Choice) :
+    PreStart (run (Sys.init n prog req) cs) ∨ KInv ρ ar (run (Sys.init n prog req) cs) := by
+  have key := invariant_from_init Rules.current (fun s => RegTyping s.prog ρ ar → KInv ρ ar s)
+    (fun s hs hty' => KInv.of_started hs hty')
+    (fun s m hk hty' => (hk (microStep_prog Rules.current s m ▸ hty')).micro m) n prog req hn hwf cs
+  rcases key with h | h
+  · exact Or.inl h
+  · refine Or.inr (h ?_)
+    have : (runWith Rules.current (Sys.init n prog req) cs).prog = prog := run_prog _ _ _
+    rw [this]; exact hty
 
 end QM.Sys
